@@ -830,7 +830,7 @@ func (g *gen) premise(bound []string) string {
 	case k < 16:
 		return v() + " " + g.r0([]string{"<", "<=", ">", ">="}) + " " + g.term(1)
 	case k < 18:
-		return g.r0f([]string{":match_cons(%s, H, Tl)", ":match_nil(%s)", ":match_pair(%s, A, B)", ":match_field(%s, /a, V)", ":list:member(M, %s)",
+		return g.r0f([]string{":match_cons(%s, H, Tl)", ":match_nil(%s)", ":match_pair(%s, A, B)", ":match_field(%s, /a, V)", ":match_entry(%s, /a, V)", ":match_entry(%s, K, V)", ":list:member(M, %s)",
 			":string:starts_with(%s, \"a\")", ":match_prefix(%s, /a)", ":filter(%s)", ":time:lt(%s, T0)", ":duration:le(%s, D)", ":interval:before(fn:pair(S, E), fn:pair(%s, E))",
 			":within_distance(%s, 1, 2)", ":lt(%s, 3)"}, v())
 	default:
@@ -1321,7 +1321,7 @@ func (g *gen) cleanRule() string {
 			body = append(body, pickBound()+" "+g.r0([]string{"<", "<=", ">", ">="})+" "+g.r0([]string{"3", "0", pickBound()}))
 		case 6:
 			b := pickBound()
-			body = append(body, g.r0f([]string{":match_cons(%s, Hd, Tl)", ":match_pair(%s, Pa, Pb)", ":match_field(%s, /a, Fv)", ":list:member(Mm, %s)", ":string:starts_with(%s, \"a\")", ":match_prefix(%s, /foo)", ":time:lt(%s, %s)"}, b))
+			body = append(body, g.r0f([]string{":match_cons(%s, Hd, Tl)", ":match_pair(%s, Pa, Pb)", ":match_field(%s, /a, Fv)", ":match_entry(%s, /a, Ev)", ":list:member(Mm, %s)", ":string:starts_with(%s, \"a\")", ":match_prefix(%s, /foo)", ":time:lt(%s, %s)"}, b))
 		case 7:
 			body = append(body, pickBound()+" = "+pickBound())
 		}
